@@ -313,3 +313,18 @@ PROPS["C08"] = {
         {"name": "TestProp_C08_Secrets", "quick": {"shards": 8, "checks": 60, "timeout": 600}, "thorough": {"shards": 16, "checks": 1500, "timeout": 3000}},
     ],
 }
+
+PROPS["C19"] = {
+    "level": "exploration",
+    "technique": "property-based testing (rapid) + enumeration of the named traffic patterns: a generated cycle of operations is repeated n, 2n, 4n times; metamorphic oracle on history length: the size of everything reachable from the conversation (object-graph walker, slices to capacity) and the longest outgoing message must not grow between n and 4n",
+    "level_text": "ping-pong, one-directional bursts, floods of forged data messages with varying key ids/counters, garbage, rejected key-exchange messages, replays of old messages, repeated re-keying, SMP runs and heartbeats, each alone and in generated combinations, with n up to 10 (quick) / 64 (thorough)",
+    "level_note": "retained size is what the walker can reach (it excludes the long-term keys and harness objects); a tolerance of 1 KiB covers slice rounding and 160 bytes cover the four MAC keys that may legitimately be disclosed",
+    "rule": ("cycle = 1..4 ops from {ping-pong, burst of 1-4 texts one way, forged copy of the peer's latest data message with sender/recipient key id +0..4 and a raised counter, garbage behind ?OTR:AAMD, bit-flipped key-exchange message, re-key by query, complete SMP run, clock ageing, replay of three old data messages}; texts have a fixed length. "
+             "Oracle: size after cycles 2n and 4n <= largest size seen in cycles 1..n + 1024 bytes, for both parties; longest message emitted in cycles (2n,4n] <= longest in [1,n] + 160 bytes. Non-trivial: the cycle contains an accepted message each way or a rejected input."),
+    "assumptions": COMMON_ASSUME + ["texts queued before a session exists and half-received fragment streams are not generated inside cycles (the statement allows them to grow)"],
+    "exhaustive_checks": ["C19patterns"],
+    "tests": [
+        {"name": "TestProp_C19_Cycles", "quick": {"shards": 8, "checks": 6, "timeout": 600}, "thorough": {"shards": 16, "checks": 60, "timeout": 3000}},
+        {"name": "TestProp_C19_Patterns", "kind": "plain", "quick": {"shards": 8, "timeout": 600}, "thorough": {"shards": 16, "timeout": 3000}},
+    ],
+}
